@@ -1016,7 +1016,9 @@ fn check_replies(
     let mut mine: Vec<(i64, wire::NumSet, i32)> = Vec::new();
     let mut rest = Vec::new();
     for (wi, sn, s, cnt) in nf_left.drain(..) {
-      if wi == e.w && (e.partial.contains_key(&sn) || e.missing.contains(&sn)) && !mine.iter().any(|(s2, _, _)| *s2 == sn) {
+      // a NACKFRAG belongs to the first heartbeat (in processing order) at whose
+      // time that sample was partially received
+      if wi == e.w && e.partial.contains_key(&sn) && !mine.iter().any(|(s2, _, _)| *s2 == sn) {
         mine.push((sn, s, cnt));
       } else {
         rest.push((wi, sn, s, cnt));
@@ -1067,6 +1069,15 @@ fn check_replies(
       }
     }
   }
-  let _ = (an_iter.next(), nf_left);
+  let _ = an_iter.next();
+  for (wi, sn, _, _) in nf_left {
+    if !expected.iter().any(|e| e.w == wi && e.partial.contains_key(&sn)) {
+      return Err((
+        "c03.nackfrag-for-unstarted-sample",
+        "nackfrag".into(),
+        format!("NACKFRAG for sn {sn} of writer {wi}, of which no fragment had arrived when any of the heartbeats of this datagram was processed (or which was not missing)"),
+      ));
+    }
+  }
   Ok(())
 }
